@@ -16,20 +16,28 @@ import (
 )
 
 func main() {
-	hk.Main("C17", runC17, map[string]hk.Gosyncer{})
+	hk.Main("C17", runC17, map[string]hk.Gosyncer{"PayloadForbid": syncPayloadForbid, "ContentTypes": syncContentTypes})
 }
 
 func runC17(r *hk.Run) {
-	r.Header = "From ReqV Require Import Model.C17Run."
+	r.Header = "From ReqV Require Import Model.C17Run.\nFrom Coq Require Import Uint63."
 	r.CaseType = "c17_case"
 	r.CheckFn = "c17_check"
-	r.ShardSize = 250
-	r.Rule = "requests of the real client to a local net/http origin. Non-trivial: a form/ordered-form case with at least one key or value containing a byte QueryEscape must escape, an empty or repeated key, or client-level and request-level data together; an escape-table case. Distinct by canonical input."
+	r.ShardSize = 80
+	r.Rule = "requests of the real client to a local net/http origin. Kinds: url-encoded forms (plain, ordered, client+request level, preset content types), multipart (0-5 files by path / bytes / reader / custom upload, sizes around 512 B and 32 KiB, names needing quoting, custom boundaries, forced chunked, failing files), marshalled JSON/XML values, raw bodies, GET/HEAD/OPTIONS with AllowGetMethodPayload on/off, upload and download callbacks with intervals 0 / 1 ms / 1 h, plus the stdlib functions the code relies on (QueryEscape/Unescape, ParseQuery, %q, escapeQuotes, SetBoundary/FormDataContentType) and the progress wrappers driven directly. Non-trivial: every end-to-end exchange; table cases whose output differs from the input; progress scripts with more than one event. Distinct by canonical input."
 	rng := hk.NewRand(r.Seed)
 	o := startOrigin()
 	defer o.close()
 	g := &gen{r: r, rng: rng, o: o}
 	g.escapeCases()
+	g.quoteCases()
 	g.formCases()
-	r.Notes = append(r.Notes, fmt.Sprintf("ordered form data with an odd number of strings (outside the property): request sent without error and with an empty body %d time(s)", g.oddOrderedSilent))
+	g.multipartCases()
+	g.marshalCases()
+	g.forbiddenCases()
+	g.progressUnitCases()
+	g.downloadCases()
+	r.Notes = append(r.Notes,
+		fmt.Sprintf("ordered form data with an odd number of strings (outside the property): request sent without error %d time(s)", g.oddOrderedSilent),
+		fmt.Sprintf("file/param names with control bytes or unprintable runes (outside the guard): arrived in altered form %d time(s), part structure intact", g.alteredNames))
 }
